@@ -7,6 +7,7 @@ import PsVerif.Model.Names
 import PsVerif.Model.Query
 import PsVerif.Model.T1Decode
 import Driver.SerDriver
+import Driver.AFMDriver
 import Driver.RefillDriver
 /-!
 `psdriver`: reads one case per line from stdin, prints the model's canonical result
@@ -65,11 +66,14 @@ def handle (line : String) : String :=
     | _, _ => "bad-op"
   | ["csf", _, _] => "skip"
   | "ser" :: _ => serVerb line
+  | "afmrw" :: _ => afmVerb line
   | "refill" :: _ => refillVerb line
   | "cmap" :: _ => "skip"
   | "cmapmulti" :: _ => "skip"
   | "afm" :: _ => "skip"
   | "sched" :: _ => "skip"
+  | "deep" :: _ => "skip"
+  | "hostilefile" :: _ => "skip"
   | "fault" :: _ => "skip"
   | "det" :: _ => "skip"
   | "iso" :: _ => "skip"
